@@ -4,6 +4,7 @@ import Ivg.Gen.Tie.DrawOps
 import Ivg.Gen.Tie.DecodeErrors
 import Ivg.Gen.Tie.Magic
 import Ivg.Gen.Tie.Mids
+import Ivg.Gen.Tie.MiscFields
 import Ivg.Obligations
 /-!
 # C13 — metadata: what Reset receives, what is rejected, and metadata-only decoding
@@ -296,16 +297,30 @@ theorem metadata_only_no_calls (m0 : Metadata) (opts : List DecodeOption) (src :
 
 end Ivg.Props.C13
 
-#obligations C13 [
-  Ivg.Props.C13.reset_delivers_metadata, Ivg.Props.C13.defaults, Ivg.Props.C13.default_values,
-  Ivg.Props.C13.palette_explicit_then_black, Ivg.Props.C13.palette_chunk_stores,
-  Ivg.Props.C13.suggested_entry_conversion, Ivg.Props.C13.suggested_sanitised,
-  Ivg.Props.C13.chunk_accepted_iff, Ivg.Props.C13.viewbox_valid, Ivg.Props.C13.viewbox_rejected,
-  Ivg.Props.C13.unknown_mid_rejected, Ivg.Props.C13.mid_order_rejected,
-  Ivg.Props.C13.mid_strictly_increasing, Ivg.Props.C13.at_most_two_chunks,
-  Ivg.Props.C13.length_consistent, Ivg.Props.C13.viewbox_length_rejected,
+#obligations C13 [Ivg.Props.C13.reset_delivers_metadata,
+  Ivg.Props.C13.defaults,
+  Ivg.Props.C13.default_values,
+  Ivg.Props.C13.palette_explicit_then_black,
+  Ivg.Props.C13.palette_chunk_stores,
+  Ivg.Props.C13.suggested_entry_conversion,
+  Ivg.Props.C13.suggested_sanitised,
+  Ivg.Props.C13.chunk_accepted_iff,
+  Ivg.Props.C13.viewbox_valid,
+  Ivg.Props.C13.viewbox_rejected,
+  Ivg.Props.C13.unknown_mid_rejected,
+  Ivg.Props.C13.mid_order_rejected,
+  Ivg.Props.C13.mid_strictly_increasing,
+  Ivg.Props.C13.at_most_two_chunks,
+  Ivg.Props.C13.length_consistent,
+  Ivg.Props.C13.viewbox_length_rejected,
   Ivg.Props.C13.palette_length_rejected,
-  Ivg.Props.C13.metadata_only_ok_iff, Ivg.Props.C13.metadata_only_error_same,
-  Ivg.Props.C13.metadata_only_same, Ivg.Props.C13.metadata_only_no_calls,
-  Ivg.Gen.Tie.drawOps_tie, Ivg.Gen.Tie.magic_tie, Ivg.Gen.Tie.decodeErrors_tie,
-  Ivg.Gen.Tie.defaultViewBox_tie, Ivg.Gen.Tie.mids_tie]
+  Ivg.Props.C13.metadata_only_ok_iff,
+  Ivg.Props.C13.metadata_only_error_same,
+  Ivg.Props.C13.metadata_only_same,
+  Ivg.Props.C13.metadata_only_no_calls,
+  Ivg.Gen.Tie.drawOps_tie,
+  Ivg.Gen.Tie.magic_tie,
+  Ivg.Gen.Tie.decodeErrors_tie,
+  Ivg.Gen.Tie.defaultViewBox_tie,
+  Ivg.Gen.Tie.mids_tie,
+  Ivg.Gen.Tie.metadata_fields_tie]
